@@ -113,7 +113,12 @@ def w_opus(case):
         s16[0], s16[1], s16[2], s16[3], s16[4] = 0x20, (nsect >> 8) & 0xFF, nsect & 0xFF, 18, tracks
         for i, X in enumerate(letters):
             s16[8 + 2 * i] = 1 + i * sz
-            s0, s1 = disc.catalogue(b'V' + X.encode(), 0, 0, min(ext[X][1], 1023), vols[X])
+            cat_total = min(ext[X][1], 1023)
+            if X == L and case.get('inflate'):
+                # the volume's own catalogue claims more sectors than the volume has (the disc catalogue in sector 16
+                # is what defines the extent)
+                cat_total = min(ext[X][1] + case['inflate'], 1023)
+            s0, s1 = disc.catalogue(b'V' + X.encode(), 0, 0, cat_total, vols[X])
             img[2 * i * 256:(2 * i + 1) * 256] = s0
             img[(2 * i + 1) * 256:(2 * i + 2) * 256] = s1
         for i in range(len(letters), 8):
@@ -123,7 +128,7 @@ def w_opus(case):
         d = run.fresh_dir('c17')
         dfsrun.write(d, 'img.sdd', bytes(img))
         last = (L == letters[-1])
-        sig = 'C17:opus:%s' % ('last-volume' if last else 'inner-volume')
+        sig = 'C17:opus:%s%s' % ('last-volume' if last else 'inner-volume', ':inflated-catalogue-total' if case.get('inflate') else '')
         note = 'Opus %d volumes of %d track(s), volume %s (%d sectors), entry start=%d length=%d (ends at %d)' % (
             nv, sz, L, B, st, ln, st + (ln + 255) // 256)
         run_entry_cmds(res, d, 'img.sdd', 0, L, crossing, ln, ord(L), sig, note)
@@ -232,6 +237,9 @@ def fam_opus(tier):
                     ws = ws[::2]
                 for (st, ln, crossing) in ws:
                     yield {'w': 'opus', 'nv': nv, 'size': sz, 'tracks': tracks, 'vol': L, 'entry': [st, ln, crossing]}
+                    if crossing and (tier == 'thorough' or (nv in (2, 3, 8) and sz in (1, 2))):
+                        for inflate in (1, 2, 18, 500):
+                            yield {'w': 'opus', 'nv': nv, 'size': sz, 'tracks': tracks, 'vol': L, 'entry': [st, ln, crossing], 'inflate': inflate}
 
 
 def fam_sides(tier):
